@@ -286,7 +286,7 @@ def build_trees(ctx, rnd, names):
 
 
 UROOTS = [None, b"/unp", b"rel/dir", b"/un pack", b"/q\"uote", b"/back\\slash", b"/tab\there", b"/cr\r", b"",
-          b"/a\\ b", b" lead", b"trail ", b"/\\\\ x"]
+          b"/a\\ b", b" lead", b"trail ", b"/\\\\ x", b"/unp/", b"rel dir/"]
 
 
 def malformed_trees(rnd):
@@ -813,6 +813,255 @@ def tool_oracle(ctx, tools, tree, uroot_name, workdir, imgleg=None):
     return results or None
 
 
+# --------------------------------------------------------------------------
+# contents leg (session 3, coq/ImgDescribe/HostModel.v + ContentsProofs.v): describe + unpack -> gensquashfs --pack-file,
+# the bytes of every regular file; where describe says the file is and which path gensquashfs opens
+# --------------------------------------------------------------------------
+CBS = 4096      # block size of both images of this leg: multi-block / sparse files stay small
+C_VARIANTS = ["abs-uroot", "abs-uroot-trailing-slash", "rel-uroot-packdir-option", "rel-uroot-packdir-from-listing",
+              "no-uroot-packdir-option", "no-uroot-no-packdir"]
+C_CLASSES = ["empty", "tiny", "fragment", "block", "block+1", "multi", "multi+tail", "sparse", "sparse-hole", "sparse-tail"]
+C_NAMES = [b"a b", b"q\"uote", b"back\\slash", b"a\\ b", b"tab\there", b"cr\r", b"end\\", b"\"quoted\"", b" lead", b"trail ",
+           b"#hash", b"\\\\ x", b"plain", b"x\ry", b"'s q'", b"\\\"", b"u\xc3\xa4", b"\xff\xfe"]
+
+
+def c_data(cls, seed):
+    """contents of one generated file: deterministic in (class, seed)"""
+    r = random.Random(seed * 1000003 + C_CLASSES.index(cls))
+    rb = lambda n: bytes(r.getrandbits(8) for _ in range(n))
+    z = lambda n: b"\0" * n
+    if cls == "empty":
+        return b""
+    if cls == "tiny":
+        return rb(1 + seed % 7)
+    if cls == "fragment":
+        return rb(100 + seed % 3000)
+    if cls == "block":
+        return rb(CBS)
+    if cls == "block+1":
+        return rb(CBS) + b"x"
+    if cls == "multi":
+        return rb(2 * CBS) if seed % 2 else rb(16) * (3 * CBS // 16)
+    if cls == "multi+tail":
+        return rb(2 * CBS + 1 + seed % 999)
+    if cls == "sparse":
+        return z(3 * CBS)
+    if cls == "sparse-hole":
+        return rb(CBS) + z(2 * CBS) + rb(CBS) + rb(17)
+    return z(2 * CBS + 5 + seed % 100)       # sparse-tail: zero blocks and a zero tail end
+
+
+def gen_contents_cases(ctx, rnd):
+    n = 6 if ctx.tier == "quick" else 36
+    cases = []
+    for i in range(n):
+        names = rnd.sample(C_NAMES, len(C_NAMES))
+        dirs = [[]]
+        ents = []
+        k = 0
+        for d in range(2):
+            parent = rnd.choice(dirs)
+            dirs.append(parent + [names[k]])
+            ents.append(dict(path=[hx(c) for c in dirs[-1]], kind="dir", mode=rnd.choice([0o755, 0o700]), uid=rnd.choice([0, 7]), gid=0))
+            k += 1
+        classes = list(C_CLASSES) + [rnd.choice(C_CLASSES)]
+        rnd.shuffle(classes)
+        for cls in classes:
+            parent = rnd.choice(dirs)
+            ents.append(dict(path=[hx(c) for c in parent + [names[k]]], kind="file", mode=rnd.choice([0o644, 0o600, 0o4755]),
+                             uid=rnd.choice([0, 1000]), gid=rnd.choice([0, 100]), cls=cls, seed=rnd.randrange(1 << 20)))
+            k += 1
+        cases.append(dict(variant=C_VARIANTS[i % len(C_VARIANTS)], uname=hx(rnd.choice([b"unp", b"un pack", b"u\\n\"p\tack", b"r\r", b"q\"", b"b\\"])),
+                          entries=ents))
+    return cases
+
+
+# ---- the model of coq/ImgDescribe/HostModel.v, transcribed (at_cwd, packdir_of, gens_dir, location, unpack_dir) ----
+def m_at_cwd(cwd, p):
+    return p if p[:1] == b"/" else cwd + b"/" + p
+
+
+def m_packdir_of(opt_d, infile):
+    if opt_d is not None:
+        return opt_d
+    i = infile.rfind(b"/")
+    return None if i < 0 else infile[:i]
+
+
+def m_gens_dir(cwd, opt_d, infile):
+    pd = m_packdir_of(opt_d, infile)
+    if pd is None:
+        return cwd
+    if pd == b"":
+        return None
+    return m_at_cwd(cwd, pd)
+
+
+def m_location(uroot, q):
+    j = b"/".join(q)
+    return j if uroot is None else uroot + b"/" + j
+
+
+def m_unpack_dir(cwd, u):
+    return cwd if u is None else m_at_cwd(cwd, u)
+
+
+def contents_case(ctx, tools, shim, drv, imgleg, case, wd):
+    """one cycle; returns a list of (sig, what, no_input) and a dict of counters"""
+    res, cnt = [], dict(files=0, bytes=0, opens=0, listing=0)
+    fsb = os.fsencode
+    os.makedirs(wd)
+    variant = case["variant"]
+    uname = unhx(case["uname"])
+    ents = case["entries"]
+    data = {}
+    # ---- first image ----
+    tarp = os.path.join(wd, "in.tar")
+    with tarfile.open(tarp, "w", format=tarfile.GNU_FORMAT, encoding="utf-8", errors="surrogateescape") as tf:
+        for e in ents:
+            q = [unhx(c) for c in e["path"]]
+            ti = tarfile.TarInfo(b"/".join(q).decode("utf-8", "surrogateescape"))
+            ti.mode, ti.uid, ti.gid, ti.mtime = e["mode"], e["uid"], e["gid"], 0
+            if e["kind"] == "dir":
+                ti.type = tarfile.DIRTYPE
+                tf.addfile(ti)
+            else:
+                d = c_data(e["cls"], e["seed"])
+                data[tuple(q)] = (d, e["cls"])
+                ti.type, ti.size = tarfile.REGTYPE, len(d)
+                tf.addfile(ti, io.BytesIO(d))
+    img = os.path.join(wd, "a.sqfs")
+    rc, out, err = run_tool([tools["tar2sqfs"], "-q", "-f", "-b", str(CBS), img], inp=open(tarp, "rb").read())
+    if rc != 0:
+        ctx.notes.append("contents leg: tar2sqfs refused the generated tar: " + err.decode("utf-8", "replace")[-200:])
+        return res, cnt
+    # ---- who runs where (the parameters of location_resolves / describe_repack_contents) ----
+    W = fsb(os.path.realpath(wd)) + b"/w"           # rdsquashfs runs here
+    G = fsb(os.path.realpath(wd)) + b"/g"           # gensquashfs runs here (unless said otherwise)
+    os.makedirs(W)
+    os.makedirs(G)
+    listing_file = G + b"/listing.txt"
+    pack_arg = b"listing.txt"
+    cwd_g, opt_d = G, None
+    if variant == "abs-uroot":
+        unp = uroot = W + b"/" + uname
+    elif variant == "abs-uroot-trailing-slash":
+        unp = uroot = W + b"/" + uname + b"/"
+    elif variant == "rel-uroot-packdir-option":
+        unp = uroot = b"rel dir/" + uname
+        opt_d = W
+    elif variant == "rel-uroot-packdir-from-listing":
+        unp = uroot = uname
+        cwd_g = fsb(os.path.realpath(wd))
+        listing_file = W + b"/listing.txt"
+        pack_arg = b"w/listing.txt"                  # packdir = "w" (strrchr), relative to gensquashfs' directory
+    elif variant == "no-uroot-packdir-option":
+        unp, uroot = W + b"/" + uname, None
+        opt_d = unp
+    else:                                            # no unpack root, no pack directory: gensquashfs runs where the files are
+        unp, uroot = None, None
+        cwd_g = W
+        listing_file = W + b"/listing.txt"
+    rc, out, err = run_tool([tools["rdsquashfs"], "-q", "-D", "-S", "-F", "-u", "/"] + (["-p", unp] if unp is not None else []) + [img], cwd=W)
+    if rc != 0:
+        res.append(("contents:unpack:" + variant, "rdsquashfs --unpack-path / failed: " + err.decode("utf-8", "replace")[-300:], False))
+        return res, cnt
+    rc, listing, err = run_tool([tools["rdsquashfs"], "-d"] + (["-p", uroot] if uroot is not None else []) + [img], cwd=W)
+    if rc != 0:
+        res.append(("contents:describe-failed:" + variant, "rdsquashfs --describe failed: " + err.decode("utf-8", "replace")[-300:], False))
+        return res, cnt
+    open(listing_file, "wb").write(listing)
+    # ---- tie: the listing (location tokens included) is the model's, byte for byte ----
+    if imgleg is not None:
+        rtree = imgleg.reader_tree(img)
+        rcm, om, em = run_lines(drv, [dcase(uroot, rtree)])
+        ml = None
+        if rcm == 0 and om and om[0].startswith("0 "):
+            ml = unhx(om[0].split(" ", 1)[1])
+        cnt["listing"] = 1
+        if ml != listing:
+            k = 0 if ml is None else next((i for i, (a, b) in enumerate(zip(ml, listing)) if a != b), min(len(ml), len(listing)))
+            res.append(("tie-contents:location:" + variant,
+                        "the listing rdsquashfs --describe%s printed differs from DescribeModel.describe (location = unpack root, '/', "
+                        "path as ONE token) at byte %d: tool %r model %r" % (" -p %r" % uroot if uroot is not None else "", k,
+                                                                             listing[max(0, k - 30):k + 30], None if ml is None else ml[max(0, k - 30):k + 30]), True))
+    # ---- gensquashfs --pack-file under the open() logger ----
+    img2 = os.path.join(wd, "b.sqfs")
+    log = os.path.join(wd, "open.log")
+    env = dict(ENV, LD_PRELOAD=shim, C16_OPENLOG=log, ASAN_OPTIONS="detect_leaks=0:verify_asan_link_order=0")
+    cmd = [tools["gensquashfs"], "-q", "-f", "-b", str(CBS)] + (["-D", opt_d] if opt_d is not None else []) + ["--pack-file", pack_arg, fsb(os.path.realpath(img2))]
+    try:
+        r = subprocess.run(cmd, cwd=cwd_g, stdout=subprocess.PIPE, stderr=subprocess.PIPE, env=env, timeout=120)
+        rc, err = r.returncode, r.stderr
+    except subprocess.TimeoutExpired:
+        rc, err = 124, b"timeout"
+    opens = []
+    if os.path.exists(log):
+        for l in open(log).read().split("\n"):
+            w = l.split()
+            if len(w) == 5 and w[0] in ("O", "C"):
+                opens.append((w[0], int(w[1]), unhx(w[2]), unhx(w[3]), int(w[4])))
+    # what the model says gensquashfs opens
+    pcwd = m_gens_dir(cwd_g, opt_d, pack_arg)
+    udir = m_unpack_dir(W, unp)
+    expect = sorted((fsb(os.path.realpath(pcwd)), m_location(uroot, list(q))) for q in data)
+    start = next((i for i, o in enumerate(opens) if o[0] == "O" and o[3] == pack_arg), None)
+    got = None
+    if start is not None:
+        tail = opens[start + 1:]
+        got = sorted((o[2], o[3]) for o in tail if o[0] == "O" and (o[1] & 3) == 0)
+        chd = [(o[2], o[3]) for o in tail if o[0] == "C"][:1]
+        want_chd = [] if m_packdir_of(opt_d, pack_arg) is None else [(cwd_g, m_packdir_of(opt_d, pack_arg))]
+        cnt["opens"] = len(got)
+        if got != expect or chd != want_chd:
+            bad = next((g for g in got if g not in expect), None) or next((e for e in expect if e not in got), None)
+            res.append(("tie-contents:open:" + variant,
+                        "gensquashfs opens its input files at other paths than HostModel says (chdir %r, expected %r; first differing open "
+                        "(cwd, path) %r; %d opens, %d expected)" % (chd, want_chd, bad, len(got), len(expect)), True))
+    elif rc == 0:
+        res.append(("tie-contents:open:" + variant, "the open() log of gensquashfs does not show the pack file being opened", True))
+    # the model's two resolutions name the same host file (same_place on the real file system), and it holds the data
+    for q, (d, cls) in data.items():
+        a = m_at_cwd(pcwd, m_location(uroot, list(q)))
+        b = m_at_cwd(udir, b"/".join(q))
+        try:
+            same = os.path.samefile(a, b) and open(a, "rb").read() == d
+        except OSError:
+            same = False
+        if not same:
+            res.append(("contents:unpacked:" + cls, "after unpacking, the host file %r (where describe's location points from gensquashfs' pack "
+                        "directory) is not the file with the contents of %r (unpacked to %r)" % (a, b"/".join(q), b), False))
+            break
+    if rc != 0:
+        msg = err.decode("utf-8", "replace")
+        res.append(("contents:reject:" + variant, "gensquashfs --pack-file fails on (describe listing, unpacked files): " + msg.strip()[-300:], False))
+        return res, cnt
+    # ---- the bytes of every regular file of the re-packed image ----
+    got2, e = list_image(tools, img2, wd)
+    if got2 is None:
+        res.append(("contents:list2:" + variant, e, False))
+        return res, cnt
+    for q, (d, cls) in sorted(data.items()):
+        p = b"/".join(q)
+        ent = got2.get(p)
+        cnt["files"] += 1
+        cnt["bytes"] += len(d)
+        if ent is None or ent[0] != "file" or ent[4] != hashlib.sha256(d).hexdigest():
+            res.append(("contents:differs:%s:%s" % (cls, variant), "the re-packed image does not hold the unpacked bytes of %r (%s, %d bytes, "
+                        "sha256 %s): %r" % (p, cls, len(d), hashlib.sha256(d).hexdigest()[:16], ent), False))
+            break
+    # one file also through rdsquashfs --cat (the data reader without sqfs2tar in between)
+    if data:
+        q, (d, cls) = sorted(data.items(), key=lambda kv: -len(kv[1][0]))[0]
+        rc, out, err = run_tool([tools["rdsquashfs"], "-c", b"/".join(q), img2])
+        if rc != 0 or out != d:
+            res.append(("contents:cat:%s:%s" % (cls, variant), "rdsquashfs --cat %r on the re-packed image: rc %d, %d bytes, expected %d" % (
+                b"/".join(q), rc, len(out), len(d)), False))
+    if set(p for p, v in got2.items() if v[0] == "file") != set(b"/".join(q) for q in data):
+        res.append(("contents:fileset:" + variant, "the regular files of the re-packed image are not those of the described tree", False))
+    return res, cnt
+
+
 def tool_trees(ctx, rnd, names):
     """trees for the tool level: every quoting-relevant byte in first/middle/last position, all types but sockets
     come from the tar (sockets cannot), modest size."""
@@ -874,6 +1123,7 @@ def run(ctx):
         replay = json.load(open(ctx.replay))
     if replay is not None:
         d_cases, trees_for_oracle, p_cases, t_trees = [], [], [], []
+        c_cases = [replay["contents_case"]] if replay.get("contents_case") is not None else []
         if replay.get("tree") is not None:
             ur = replay.get("uroot")
             ur = None if ur is None else bytes.fromhex(ur)
@@ -910,9 +1160,10 @@ def run(ctx):
             d_cases.append((rnd.choice(UROOTS), t))
         p_cases = None
         t_trees = tool_trees(ctx, rnd, names)
+        c_cases = gen_contents_cases(ctx, random.Random(ctx.seed * 104729 + 1616))
         rule = ("names/targets: all strings over {space,tab,dquote,backslash,CR,'a','#'} up to length %d; every byte 1..255 except "
                 "'/' and newline as first/middle/last/only character; %d random names (<=120 bytes) over a quoting-heavy alphabet; "
-                "packed %d to a tree over all 7 inode types x 13 unpack roots; %d malformed trees; parser: %d hand-made boundary "
+                "packed %d to a tree over all 7 inode types x 15 unpack roots (two ending in '/'); %d malformed trees; parser: %d hand-made boundary "
                 "listings + model listings + seeded mutations + token soup, buffer sizes 1..4096; seed %d; non-trivial = the case "
                 "contains a character from {space,tab,dquote,backslash,CR} or reaches an error branch"
                 % (5 if ctx.tier == "quick" else 6, 4000 if ctx.tier == "quick" else 100000, 40, len(malformed_trees(rnd)), 735, ctx.seed))
@@ -1083,6 +1334,48 @@ def run(ctx):
             ctx.violation("tie-image:" + kind, "correspondence coq/ImgDescribe (composed model) vs rdsquashfs --describe | gensquashfs "
                           "--pack-file broken: " + what, dict(kind="tool", correspondence="props/C16 image level tie", **detail),
                           no_input=True)
+
+    # ---------------- contents leg: describe + unpack -> pack file, bytes of every file; location / open() tie ----------------
+    if c_cases:
+        shim = os.path.join(ctx.scratch, "shim_open16.so")
+        cc = subprocess.run(["gcc", "-shared", "-fPIC", "-O1", "-w", "-o", shim, os.path.join(HERE, "shim_open.c"), "-ldl"],
+                            stdout=subprocess.PIPE, stderr=subprocess.PIPE)
+        if cc.returncode != 0:
+            ctx.proof_broken.append("props/C16/shim_open.c does not compile: " + cc.stderr.decode("utf-8", "replace")[-300:])
+        else:
+            tot = dict(files=0, bytes=0, opens=0, listing=0)
+            cbad = 0
+            for i, case in enumerate(c_cases):
+                wd = os.path.join(ctx.scratch, "cont%d" % i)
+                try:
+                    res, cnt = contents_case(ctx, info["tools"], shim, drv, imgleg, case, wd)
+                except (sqfsimg.ParseError, OSError, ValueError, IndexError) as ex:
+                    res, cnt = [("tie-contents:machinery", "contents leg could not be evaluated: %r" % (ex,), True)], {}
+                shutil.rmtree(wd, ignore_errors=True)
+                for k in tot:
+                    tot[k] += cnt.get(k, 0)
+                if res:
+                    cbad += 1
+                for sig, what, no_input in res:
+                    if sig in seen:
+                        continue
+                    seen.add(sig)
+                    if no_input:
+                        ctx.tie_broken.append("contents:" + sig.split(":")[1])
+                    ctx.violation(sig, what, dict(kind="contents", contents_case=case,
+                                                  correspondence="props/C16 contents leg: coq/ImgDescribe/HostModel.v (location, gens_dir, at_cwd) vs "
+                                                                 "rdsquashfs --describe / gensquashfs pack_files"), no_input=no_input)
+            ctx.log("contents leg: %d cycles (%d failed), %d regular files / %d bytes compared by sha256, %d listings equal to the model's "
+                    "candidate, %d open() calls compared with the model's resolution" % (len(c_cases), cbad, tot["files"], tot["bytes"],
+                                                                                         tot["listing"], tot["opens"]))
+            ctx.coverage["contents_leg"] = dict(cycles=len(c_cases), failed=cbad, files=tot["files"], bytes=tot["bytes"],
+                                                listings=tot["listing"], opens=tot["opens"], variants=C_VARIANTS, classes=C_CLASSES)
+            ctx.coverage["evaluations"] += tot["files"] + tot["opens"]
+            ctx.trusted.append("props/C16/shim_open.c (LD_PRELOAD open()/chdir() logger), the Python transcription of HostModel.v's "
+                               "at_cwd / packdir_of / gens_dir / location in check.py, os.path.realpath/samefile")
+            ctx.assumptions.append("describe_repack_contents: the host file system between rdsquashfs and gensquashfs is a finite map from "
+                                   "path strings to bytes, relative paths resolved textually against the working directory (no symlinks, "
+                                   "no '//' / '.' / '..' normalisation); checked on real files by the contents leg (samefile + sha256)")
 
     # ---------------- tie broken => say so (the searches above have already run) ----------------
     concrete = any(not v["no_input"] for v in ctx.violations)
